@@ -405,6 +405,8 @@ def rule_normalised_receiver(ctx: Ctx) -> None:
 
 
 def run(ctx: Ctx) -> None:
+    from .c12 import rule_register_depth_paired
+    rule_register_depth_paired(ctx)  # per-register depth needs one depth entry per register
     rule_normalised_receiver(ctx)
     from ..rules import memo as _memo
     _memo.rule_memo_sound(ctx, ['graphiq/metrics.py', 'graphiq/circuit/circuit_dag.py'])
